@@ -7,6 +7,7 @@ import (
 	"fmt"
 	"math/rand/v2"
 	"net"
+	"os"
 	"strings"
 	"sync"
 	"testing"
@@ -72,15 +73,15 @@ func genScenario(rng *rand.Rand, maxServers, maxReact int) scenario {
 }
 
 type injected struct {
-	nonce   int
-	kind    string
-	server  int
-	mtype   int // 2 offer 5 ack 6 nak
-	xid     [4]byte
-	sid     []byte
-	yi      [4]byte
-	class   string // valid | dropped (wrong xid/hw/opcode/undecodable)
-	retSeq  int64
+	nonce  int
+	kind   string
+	server int
+	mtype  int // 2 offer 5 ack 6 nak
+	xid    [4]byte
+	sid    []byte
+	yi     [4]byte
+	class  string // valid | dropped (wrong xid/hw/opcode/undecodable)
+	retSeq int64
 }
 
 type txrec struct {
@@ -175,14 +176,14 @@ func (w *world) datagram(sv *server, si int, kind string, req *ref4.P4) (*inject
 }
 
 type outcome struct {
-	lease     *nclient4.Lease
-	reqErr    error
-	renewed   *nclient4.Lease
-	renewErr  error
-	relErr    error
-	tx        []txrec
-	inj       map[int]*injected
-	events    []sconn.Event
+	lease                                         *nclient4.Lease
+	reqErr                                        error
+	renewed                                       *nclient4.Lease
+	renewErr                                      error
+	relErr                                        error
+	tx                                            []txrec
+	inj                                           map[int]*injected
+	events                                        []sconn.Event
 	reqRetSeq, renewStartSeq, renewRetSeq, relSeq int64
 }
 
@@ -292,6 +293,7 @@ func run(t *testing.T, sc scenario) (o outcome) {
 }
 
 func judge(r *mon.Rec, t *testing.T, sc scenario) {
+	r.Current(sc)
 	r.Eval(1)
 	var o outcome
 	pan, val, st := mon.Guard(func() { o = run(t, sc) })
@@ -560,6 +562,9 @@ func enumerate() []scenario {
 func TestCheck(t *testing.T) {
 	r := mon.New("C13")
 	defer r.Flush()
+	if os.Getenv("VERIF_REPLAY") == "" {
+		r.Watchdog(60 * time.Second)
+	}
 	var sc6 scenario6
 	if mon.ReplayCase(&sc6) && sc6.V6 {
 		judge6(r, t, sc6)
